@@ -86,7 +86,7 @@ def gen_case(rng, tier, i):
             switches.append([t, rng.choice(["log", "warn", "pause", "bad:zero", "bad:name", "bad:none", "bad:big", "bad:neg"])])
     cuts = sorted(rng.sample(range(0, 60), 3))
     return {"prog": prog, "faults": fl, "strategy": strategy, "driver": driver, "cuts": cuts, "nsteps": rng.randint(1, 6),
-            "switches": switches, "strategy_call": rng.choice(["plain", "plain", "level_kw", "level_pos"])}
+            "switches": switches, "strategy_call": rng.choice(["plain", "plain", "level_kw", "level_pos", "intenum"])}
 
 
 def shard_setup(tier, ctx):
